@@ -213,6 +213,63 @@ def a10(repo: Repo) -> RuleResult:
                 if nm in mod.assigns and Typer(m, fi, fi.cls).local(nm) is None and isinstance(mod.assigns[nm], (ast.List, ast.Dict, ast.Set, ast.Call)):
                     res.bad(Finding("A10", fi.rel, n.lineno, qualname(n), src_of(n), "a module-level container is mutated at run time", tag=f"{qualname(n)}:module-container"))
     res.inst(part="sources", functions=len(funcs), nd_calls=n_calls)
+
+    def _mutable_literal(v: Optional[ast.AST]) -> bool:
+        if isinstance(v, (ast.List, ast.Dict, ast.Set, ast.ListComp, ast.DictComp, ast.SetComp)):
+            return True
+        return isinstance(v, ast.Call) and isinstance(v.func, ast.Name) and v.func.id in ("list", "dict", "set", "defaultdict", "OrderedDict", "deque", "bytearray", "Counter")
+
+    # class-level containers reached through self / cls and mutated at run time: one object for all instances
+    n_cls_containers = 0
+    for c in m.all_classes():
+        if not c.rel.startswith("compiler/bitproto/"):
+            continue
+        shared = {a for a, v in c.attrs_val.items() if _mutable_literal(v)}
+        n_cls_containers += len(shared)
+        if not shared:
+            continue
+        users = [k for k in m.all_classes() if k.rel.startswith("compiler/bitproto/") and c in m.mro(k)]
+        rebound = {n.attr for k in users for fi in k.methods.values() for n in ast.walk(fi.node) if isinstance(n, ast.Attribute) and isinstance(n.ctx, ast.Store) and isinstance(n.value, ast.Name) and n.value.id == "self"}
+        for k in users:
+            for fi in k.methods.values():
+                for n in ast.walk(fi.node):
+                    tgt = None
+                    if isinstance(n, ast.Call) and isinstance(n.func, ast.Attribute) and n.func.attr in COLL_MUTATORS:
+                        tgt = n.func.value
+                    elif isinstance(n, (ast.Assign, ast.AugAssign)):
+                        for t in (n.targets if isinstance(n, ast.Assign) else [n.target]):
+                            if isinstance(t, ast.Subscript):
+                                tgt = t.value
+                    elif isinstance(n, ast.Delete):
+                        for t in n.targets:
+                            if isinstance(t, ast.Subscript):
+                                tgt = t.value
+                    if isinstance(tgt, ast.Attribute) and tgt.attr in shared and tgt.attr not in rebound and (src_of(tgt.value) in ("self", "cls", "type(self)", "self.__class__", c.name) or src_of(tgt.value) in {u.name for u in users}):
+                        res.bad(Finding("A10", fi.rel, n.lineno, fi.qual, src_of(n), f"`{src_of(tgt)}` is the container created once in the body of class {c.name} and shared by every instance (and subclass): what one compilation or one target language stores there is seen by the next", witness="compile for C and then for Go in one process: the second output depends on the first", tag=f"{fi.qual}:class-container:{tgt.attr}"))
+    res.inst(part="sources", class_level_containers=n_cls_containers)
+    # mutable default arguments that are stored or mutated: one object for all calls
+    n_defaults = 0
+    for fi in funcs:
+        a = fi.node.args
+        pos = a.posonlyargs + a.args
+        pairs = list(zip(pos[len(pos) - len(a.defaults):], a.defaults)) + [(x, d) for x, d in zip(a.kwonlyargs, a.kw_defaults) if d is not None]
+        for arg, d in pairs:
+            if not _mutable_literal(d):
+                continue
+            n_defaults += 1
+            why = None
+            for n in ast.walk(fi.node):
+                if isinstance(n, (ast.Assign, ast.AnnAssign)) and isinstance(n.value, ast.Name) and n.value.id == arg.arg and any(isinstance(t, ast.Attribute) for t in (n.targets if isinstance(n, ast.Assign) else [n.target])):
+                    why = f"stored as `{src_of(n)}`"
+                elif isinstance(n, ast.Call) and isinstance(n.func, ast.Attribute) and n.func.attr in COLL_MUTATORS and isinstance(n.func.value, ast.Name) and n.func.value.id == arg.arg:
+                    why = f"mutated by `{src_of(n)}`"
+                elif isinstance(n, (ast.Assign, ast.AugAssign)) and any(isinstance(t, ast.Subscript) and isinstance(t.value, ast.Name) and t.value.id == arg.arg for t in (n.targets if isinstance(n, ast.Assign) else [n.target])):
+                    why = f"written by `{src_of(n)}`"
+                elif isinstance(n, ast.Return) and isinstance(n.value, ast.Name) and n.value.id == arg.arg:
+                    why = "returned to the caller"
+            if why:
+                res.bad(Finding("A10", fi.rel, fi.node.lineno, fi.qual, f"{arg.arg}={src_of(d)}", f"the default value of `{arg.arg}` is one mutable object for all calls and it is {why}: what one compilation leaves in it is seen by the next", witness="two compilations in one process: comments of the first schema appear in the output of the second", tag=f"{fi.qual}:mutable-default:{arg.arg}"))
+    res.inst(part="sources", mutable_defaults=n_defaults)
     # CFormatter._op_mode_big_endian: set, and reset in finally
     try:
         fi = m.func("impls/c/formatter.py", "CFormatter.format_op_mode_message_endian")
